@@ -255,7 +255,7 @@ theorem put_ok {d : Disk} (hs : SInv d) (v : Vol) (fsL : List LRec) (ch : List N
     rcases List.mem_append.mp hy with a | a
     · exact hslotok4 y (List.mem_append_left _ a)
     · rcases List.mem_cons.mp a with rfl | a'
-      · refine Or.inr ⟨hst', by rw [fe.access]; exact hua, ?_⟩
+      · refine Or.inl (Or.inr ⟨hst', by rw [fe.access]; exact hua, ?_⟩)
         intro h3'
         simp only at h3' ⊢
         rw [fe.st] at h3'
